@@ -67,6 +67,7 @@ type AttachLine struct {
 	H    int              `json:"h"`
 	G    string           `json:"g"`
 	Got  string           `json:"got"`
+	Note string           `json:"note"`
 	Obs  *AttachObs       `json:"obs,omitempty"`
 }
 
@@ -100,6 +101,7 @@ type attachRun struct {
 	closer    string
 	willMu    sync.Mutex
 	wills     map[string]int
+	panicNote string
 }
 
 // memListener is a listener without a socket: connections are handed to EstablishConnection by the runner.
@@ -378,6 +380,12 @@ func (r *attachRun) step(st AttachStep) string {
 			r.current.Store(0)
 			r.closer = "called"
 			go func() {
+				defer func() {
+					if p := recover(); p != nil { // a panic inside Server.Close is recorded, not fatal for the runner
+						r.panicNote = fmt.Sprint(p)
+						r.closerArr <- "panic"
+					}
+				}()
 				_ = r.srv.Close()
 				close(r.closeRet)
 			}()
@@ -390,6 +398,8 @@ func (r *attachRun) step(st AttachStep) string {
 			select {
 			case <-r.closeCli:
 				return "close.clients"
+			case pt := <-r.closerArr:
+				return pt
 			case <-time.After(attachWait):
 				return "timeout"
 			}
@@ -405,6 +415,8 @@ func (r *attachRun) step(st AttachStep) string {
 			case <-r.closeRet:
 				r.closer = "returned"
 				return "close.returned"
+			case pt := <-r.closerArr:
+				return pt
 			case <-time.After(attachWait):
 				return "timeout"
 			}
@@ -439,6 +451,12 @@ func (r *attachRun) step(st AttachStep) string {
 		a.started = true
 		r.current.Store(int32(a.idx))
 		go func() {
+			defer func() {
+				if p := recover(); p != nil { // a panic inside the connection handler is recorded, not fatal for the runner
+					r.panicNote = fmt.Sprint(p)
+					a.arrived <- "panic"
+				}
+			}()
 			_ = r.srv.EstablishConnection("mem", a.conn)
 			close(a.fin)
 		}()
@@ -550,7 +568,10 @@ func RunAttach(sc AttachScenario) []AttachLine {
 	lines := []AttachLine{{Ev: "cfg", Name: sc.Name, Max: sc.Max, Hs: sc.Handlers}}
 	for i, st := range sc.Steps {
 		got := r.step(st)
-		lines = append(lines, AttachLine{Ev: "step", Max: sc.Max, Hs: []AttachHandler{}, I: i + 1, H: st.H, G: st.G, Got: got, Obs: r.observe()})
+		lines = append(lines, AttachLine{Ev: "step", Max: sc.Max, Hs: []AttachHandler{}, I: i + 1, H: st.H, G: st.G, Got: got, Note: r.panicNote, Obs: r.observe()})
+		if got == "panic" {
+			break
+		}
 		if got != st.G {
 			// The code has left the schedule. If the process is parked at another schedule point it is run on, point
 			// by point, until it blocks in its read loop or ends (recorded as steps that ask for what happened), so that
@@ -623,7 +644,11 @@ func RunAttach(sc AttachScenario) []AttachLine {
 	}
 	if r.closer == "idle" {
 		done := make(chan struct{})
-		go func() { _ = r.srv.Close(); close(done) }()
+		go func() {
+			defer func() { _ = recover() }()
+			_ = r.srv.Close()
+			close(done)
+		}()
 		select {
 		case <-done:
 		case <-time.After(attachWait):
